@@ -11,6 +11,7 @@
      sr.v  serve call returned (0 nil, 1 error)
      rq.c  request read on connection c  rx.c  read on connection c failed
      he.c  handler entered               rp.c  reply written      hx.c  handler about to return
+     hj.c  handler about to return after it hijacked connection c (tcp)
      wc.c  connection c closed by the server
      di.j  Shutdown call j invoked       dc.j  its context cancelled
      dr.j.r  it returned (0 nil, 1 context error, 2 not-started error)
@@ -57,6 +58,7 @@ Definition parse_event (s : string) : option label :=
   else if String.eqb k "he" then Some (HEnter a)
   else if String.eqb k "rp" then Some (Reply a)
   else if String.eqb k "hx" then Some (HExit a)
+  else if String.eqb k "hj" then Some (HExitHj a)
   else if String.eqb k "wc" then Some (WClose a)
   else if String.eqb k "di" then Some (SdInvoke a)
   else if String.eqb k "dc" then Some (SdCtx a)
